@@ -78,7 +78,9 @@ Definition run_conc (cs : list ccase) : list (N * N) :=
 (* System-call trace of ONE invocation running alone, projected to
      0 = .dud/lock created with O_EXCL, 1 = .dud/lock unlinked,
      2 = any other mutating call below the project, its cache or the remote
-   (by the dud process, a stage command or rclone).
+   (by the dud process, a stage command or rclone),
+     3 = the dud process opens the index, a stage file or a cache object for READING (the state
+   a command decides on is read under the lock too: trace_ok treats every event >= 2 as work).
    correspondence: the lock events are the Take/Drop effects of the model's process;
    property (on the implementation): every change happens while the lock is held, the lock is
    taken only when not held, released only when held, and not held at the end. *)
